@@ -254,6 +254,8 @@ def run(check, mirror, tier):
     ops.jobs_for(check, mirror, rb, crate, None, U, jobs, tier, {}, select={"context_literal_job", "function_positional_job"})
     parser_jobs(check, mirror, rb, jobs, tier)
     run_parallel(check, jobs)
+    # "the same prepared expression gives the same value": the built-ins that could keep state between calls (decided by C20's footprint obligations)
+    run_companion(check, mirror, tier, "C20", ["regex_bifs/", "footprint/"])
 
 
 def closure_captures(crate, builder):
